@@ -123,3 +123,13 @@ package providers
 //@   modifies clock
 //@   fresh result
 //@   ensures result != nil
+
+//@ interface Provider.Redeem(redirectURL string, code string) (*sessions.SessionState, error)
+//@   modifies clock
+//@   fresh result.0
+//@   ensures result.1 == nil ==> result.0 != nil
+
+//@ interface Provider.GetSignInURL(redirectURL *url.URL, finalRedirect string) *url.URL
+//@   modifies clock
+//@   fresh result
+//@   ensures result != nil
